@@ -1037,7 +1037,12 @@ class TeX(object):
         self.cast()
 
         """
-        return type(self.normalize(tokens))
+        value = self.normalize(tokens)
+        # Nested groups or macros leave nodes instead of text
+        if getattr(value, 'nodeType', None) in [Macro.ELEMENT_NODE,
+                                               Macro.DOCUMENT_FRAGMENT_NODE]:
+            value = value.textContent
+        return type(value)
 
     def castLabel(self, tokens, **kwargs):
         """
